@@ -21,11 +21,14 @@ type World struct {
 	T0          time.Time
 	Prices      map[string]uint64 // asset name (without the p prefix) → 1e-8 USD
 	seq         uint32
+	// Specs remembers what every committed block was made of (so that variants of the chain can be forged).
+	Specs map[uint32]BlockSpec
+	Seqs  map[uint32]uint32
 }
 
 // NewWorld creates a world with nMiners miner keys and a default price table.
 func NewWorld(e Eras, seed int64, nMiners int) *World {
-	w := &World{Eras: e, Chain: NewChain(e), Rng: rand.New(rand.NewSource(seed)), T0: time.Unix(1600000000, 0).UTC(), Prices: map[string]uint64{}}
+	w := &World{Eras: e, Chain: NewChain(e), Rng: rand.New(rand.NewSource(seed)), T0: time.Unix(1600000000, 0).UTC(), Prices: map[string]uint64{}, Specs: map[uint32]BlockSpec{}, Seqs: map[uint32]uint32{}}
 	for i := 0; i < nMiners; i++ {
 		w.Miners = append(w.Miners, NewKey(fmt.Sprintf("miner-%d-%d", seed, i)))
 	}
@@ -128,6 +131,8 @@ func (w *World) Commit(s BlockSpec) *Block {
 	w.seq++
 	b := Build(s, w.seq)
 	w.Chain.Add(b)
+	w.Specs[s.Height] = s
+	w.Seqs[s.Height] = w.seq
 	if len(s.OPR) > 0 {
 		ver := w.Eras.OPRVersion(s.Height)
 		gb, err := GradeOPR(ver, s.Height, w.PrevWinners, s.OPR)
@@ -160,4 +165,22 @@ func (w *World) StdSPRs(h uint32, stakers []Key, prices map[string]uint64) []Ent
 // BurnTx builds a factoid transaction that burns amount FCT from the address.
 func BurnTx(from factom.FAAddress, amount uint64, timeMS int64, burnRCD [32]byte) FTx {
 	return FTx{TimeMS: timeMS, Inputs: []FIO{{amount, factom.Bytes32(from)}}, ECOuts: []FIO{{0, factom.Bytes32(burnRCD)}}, Note: "burn"}
+}
+
+// Variant forges a copy of the chain in which edit may change each block's content.
+func (w *World) Variant(edit func(h uint32, s *BlockSpec)) *Chain {
+	c := NewChain(w.Eras)
+	for _, h := range w.Chain.Heights() {
+		s := w.Specs[h]
+		s.OPR = append([]Entry{}, s.OPR...)
+		s.SPR = append([]Entry{}, s.SPR...)
+		s.Tx = append([]Entry{}, s.Tx...)
+		s.FTxs = append([]FTx{}, s.FTxs...)
+		if s.OPR != nil && len(s.OPR) == 0 {
+			s.OPR = nil
+		}
+		edit(h, &s)
+		c.Add(Build(s, w.Seqs[h]))
+	}
+	return c
 }
